@@ -154,3 +154,22 @@ func Tables() (map[string]map[string]interface{}, string) {
 	}
 	return t, src
 }
+
+// GoldenMatches reports whether the committed golden file belongs to exactly
+// this request list.
+func GoldenMatches(name string, reqs []Req) bool {
+	in, _ := json.Marshal(map[string]interface{}{"requests": reqs})
+	h := sha256.Sum256(in)
+	f, err := os.Open(filepath.Join(report.Root(), "ref", "golden", name+".json.gz"))
+	if err != nil {
+		return false
+	}
+	defer f.Close()
+	zr, err := gzip.NewReader(f)
+	if err != nil {
+		return false
+	}
+	b, _ := io.ReadAll(zr)
+	var g golden
+	return json.Unmarshal(b, &g) == nil && g.Hash == fmt.Sprintf("%x", h[:16])
+}
